@@ -68,10 +68,7 @@ pub fn clean(
     let (removed, markers) = remover.remove(parsed, &content);
     #[cfg(feature = "verif-hooks")]
     crate::verif::emit(|| crate::verif::Event::CleanMarkers {
-        markers: markers
-            .iter()
-            .map(|(r, p)| (r.start, r.end, *p))
-            .collect(),
+        markers: markers.iter().map(|(r, p)| (r.start, r.end, *p)).collect(),
         source_len: content.len(),
         removed_len: removed.len(),
     });
